@@ -8,6 +8,7 @@
 //   - the statements of the default clause of evalArg's type switch (`val = arg`: literals by reference);
 //   - the last statement of the `[]any` clause of evalValue (`result = dupLiteral(tv)`: a list value of cond
 //     is a copy);
+//   - how often lt/lte/gt/gte/equalVals call the exact comparison helpers (cmpNum, cmpIntFloat) and asFloat;
 //   - how many comparisons with a zero literal quotient() contains, `i == 0` aside (its float branches
 //     have none).
 //
@@ -356,6 +357,29 @@ func extractAsm(repo, out string) ([]string, error) {
 	} else {
 		return nil, fmt.Errorf("asm extractor: function evalValue not found")
 	}
+	// calls of the exact comparison helpers (cmpNum, cmpIntFloat) at the comparison sites
+	var exactCalls [][2]string
+	for _, fn := range []string{"lt", "lte", "gt", "gte", "equalVals"} {
+		fd := funcs[fn]
+		if fd == nil {
+			return nil, fmt.Errorf("asm extractor: function %s not found", fn)
+		}
+		n, viaFloat := 0, 0
+		ast.Inspect(fd.Body, func(nd ast.Node) bool {
+			if ce, ok := nd.(*ast.CallExpr); ok {
+				if id, ok := ce.Fun.(*ast.Ident); ok {
+					switch id.Name {
+					case "cmpNum", "cmpIntFloat":
+						n++
+					case "asFloat":
+						viaFloat++
+					}
+				}
+			}
+			return true
+		})
+		exactCalls = append(exactCalls, [2]string{fn, fmt.Sprintf("%d exact, %d asFloat", n, viaFloat)})
+	}
 	// zero tests in quotient
 	zeroTests := 0
 	if fd := funcs["quotient"]; fd != nil {
@@ -407,6 +431,15 @@ func extractAsm(repo, out string) ([]string, error) {
 	fmt.Fprintf(&b, "def evalArgDefault : String := %s\n\n", asmLeanStr(evalArgDefault))
 	b.WriteString("/-- the last statement of the `[]any` clause of evalValue's type switch (`nothing`: only the if) -/\n")
 	fmt.Fprintf(&b, "def evalValueList : String := %s\n\n", asmLeanStr(evalValueList))
+	b.WriteString("/-- per comparison function: calls of cmpNum/cmpIntFloat and of asFloat in its body -/\n")
+	b.WriteString("def cmpExactCalls : List (String × String) := [")
+	for i, e := range exactCalls {
+		if i > 0 {
+			b.WriteString(", ")
+		}
+		fmt.Fprintf(&b, "(%s, %s)", asmLeanStr(e[0]), asmLeanStr(e[1]))
+	}
+	b.WriteString("]\n\n")
 	b.WriteString("/-- comparisons with a zero literal inside quotient() -/\n")
 	fmt.Fprintf(&b, "def quotientZeroTests : Nat := %d\n\n", zeroTests)
 	b.WriteString("end OjgVerif.Gen.AsmFacts\n")
